@@ -22,7 +22,12 @@ RULE = (
     "constructor, kwargs, init_from_dict, _replace / init_from_record of a throw-away source, an equal descriptor) plus one with "
     "explicit values, fill one record's field in place (digest setters; append / extend / insert of element-type values on the typed "
     "list) and demand: that record changed as requested and is still typed and serialisable, the deep observation of every other "
-    "record is unchanged, defaulted slots of different records are different objects, a record built afterwards starts unset.  One evaluation = one operation executed by the real code.  Oracle after every operation: "
+    "record is unchanged, defaulted slots of different records are different objects, a record built afterwards starts unset; "
+    "'history' cases offer, for address / network / bytes / boolean fields (scalar and list), a wrong-kind value that is equal to and hashes "
+    "like a valid one (float / Decimal / Fraction of an address integer, 1.0 for 1 / True, a memoryview of bytes) before that valid value "
+    "was ever offered (fresh random values), after it was accepted, and after a common value: the outcome must be the same in every "
+    "position.  After an assignment through a GroupedRecord, getattr(group, field), group._asdict()[field] and the member's slot must show "
+    "the same typed value, and after a rejected one the view is unchanged.  One evaluation = one operation executed by the real code.  Oracle after every operation: "
     "(1) outcome against the expectation the statement fixes (valid => accepted; out-of-range unsigned / boolean not 0,1 / "
     "malformed digest or address / non-bytes for bytes => raised; everything else open), (2) after a raised operation the deep "
     "observation of the record (observe.obs + packed digest bytes), taken before the operation, is unchanged, (3) after an "
@@ -83,6 +88,10 @@ SHADOW_NAMES = ["RECORD_VERSION", "Record", "args", "kwargs", "self", "cls", "k"
 SHADOW_TYPES = ["string", "varint", "digest", "string[]", "datetime", "uint16"]
 KEY_SHADOW = "field-name-shadows-template-global"
 # field types whose unset form is a non-None default object created by the library (empty digest, empty typed list)
+# types with a named wrong-kind class for which a hash-equal valid value exists (see run_history)
+HISTORY_TYPES = ["net.ipaddress", "net.IPAddress", "net.ipaddress[]", "net.ipnetwork", "net.IPNetwork", "net.ipnetwork[]", "net.ipv4.Address", "bytes", "bytes[]",
+                 "boolean", "boolean[]"]
+KEY_HISTORY = "acceptance-depends-on-history"
 ALIAS_TYPES = ["digest"] + [t + "[]" for t in gen.LIST_ELEM_TYPES]
 
 
@@ -112,6 +121,11 @@ def generate(ctx):
         for t in ALIAS_TYPES:
             if ctx.mine(idx):
                 yield {"k": "alias", "t": t, "s": subseed("c05", ctx.seed, "alias", t, rep)}
+            idx += 1
+    for rep in range(ctx.scale(6, 60)):
+        for t in HISTORY_TYPES:
+            if ctx.mine(idx):
+                yield {"k": "history", "t": t, "s": subseed("c05", ctx.seed, "history", t, rep)}
             idx += 1
     for rep in range(ctx.scale(2, 12)):
         for t in cands.TYPES:
@@ -436,8 +450,56 @@ class Hist:
             other = RecordDescriptor("c05/other", [("string", "zz_other")])(zz_other="o")
             members = [self.cur, other] if rng.random() < 0.5 else [other, self.cur]
             g = GroupedRecord("c05/group", members)
-            return self.attempt(op, lambda: setattr(g, fname, cand.fresh()), [(fname, cand)], target=g)
+            # a GroupedRecord attribute of the same name (name, records, descriptors ...) hides the field by design: no view claim then
+            hidden = fname in vars(g)
+            view_before = None if hidden else self.group_view(g, fname)
+            res = self.attempt(op, lambda: setattr(g, fname, cand.fresh()), [(fname, cand)], target=g)
+            if hidden:
+                self.ctx.event("group_view_hidden_by_group_attribute")
+            elif view_before is not None:
+                self.check_group_view(g, fname, cand, res[0], view_before)
+            return res
         raise ValueError(op)
+
+    def group_view(self, g, fname):
+        """what the grouped view shows for a field: attribute access and _asdict()"""
+        try:
+            return [observe.oval(getattr(g, fname)), observe.oval(g._asdict().get(fname))]
+        except Exception as e:  # noqa: BLE001
+            self.ctx.violation(None, "the grouped view of a field cannot be read", detail=self.detail("group_assign", [], field=fname, exception=repr(e)[:300]))
+            return None
+
+    def check_group_view(self, g, fname, cand, accepted, view_before):
+        """After `g.field = raw`: getattr(g, field), g._asdict()[field] and the owning member's slot are the same typed value;
+        after a rejected assignment the view is what it was."""
+        ctx = self.ctx
+        after = self.group_view(g, fname)
+        if after is None:
+            return
+        if not accepted:
+            ctx.event("group_view_unchanged_checked")
+            if after != view_before:
+                ctx.violation("grouped-view-shadowed-by-raw-value", "a rejected assignment through a GroupedRecord changed what the grouped view shows",
+                              detail=self.detail("group_assign", [(fname, cand)], before=view_before, after=after))
+            return
+        ctx.event("group_view_checked")
+        member = getattr(self.cur, fname)
+        mo = observe.oval(member)
+        via_attr, via_dict = getattr(g, fname), g._asdict().get(fname)
+        if via_attr is member and via_dict is member:
+            ctx.event("group_view_identical_object")
+        if after != [mo, mo]:
+            ctx.violation("grouped-view-shadowed-by-raw-value", "after an assignment through a GroupedRecord the grouped view does not show the member's (coerced) value",
+                          detail=self.detail("group_assign", [(fname, cand)], member_slot=mo, getattr_view=after[0], asdict_view=after[1]))
+            return
+        t = observe.declared_types(self.cur).get(fname)
+        for what, v in (("getattr", via_attr), ("_asdict", via_dict)):
+            if v is None or t is None:
+                continue
+            try:
+                observe._check_value(fname, v, t, self.cur, "grouped view (%s)" % what)
+            except observe.Untyped as e:
+                ctx.violation("grouped-view-shadowed-by-raw-value", "the grouped view returns an untyped value", detail=self.detail("group_assign", [(fname, cand)], error=str(e)))
 
     def from_record(self, fname, cand):
         """init_from_record: the source record carries the candidate.  A valid candidate sits in a source field of the
@@ -700,6 +762,88 @@ def run_suite(ctx, case):
         ctx.violation(None, "untyped slot after a record construction during the repository's own test-suite", detail=v)
 
 
+def equal_twins(base_t, rng):
+    """-> [(valid value v, [(kind label, wrong-kind value c with c == v and hash(c) == hash(v))], fresh?)]"""
+    import decimal
+    import fractions
+
+    def numeric(n):
+        out = [("Decimal", decimal.Decimal(n)), ("Fraction", fractions.Fraction(n))]
+        if float(n) == n:
+            out.insert(0, ("float", float(n)))
+        return out
+
+    if base_t in ("net.ipaddress", "net.IPAddress", "net.ipnetwork", "net.IPNetwork", "net.ipv4.Address"):
+        fresh = [rng.randrange(2**24, 2**32) for _ in range(3)]
+        if base_t != "net.ipv4.Address":
+            fresh.append(rng.randrange(2**33, 2**52))
+        out = [(n, numeric(n), True) for n in fresh]
+        out += [(3232235777, numeric(3232235777), False), (1, numeric(1), False), (True, numeric(1), False), (0, numeric(0), False)]
+        return out
+    if base_t == "bytes":
+        out = []
+        for _ in range(3):
+            b = bytes(rng.randrange(256) for _ in range(rng.randint(1, 12)))
+            out.append((b, [("memoryview", memoryview(b))], True))
+        out.append((b"", [("memoryview", memoryview(b""))], False))
+        return out
+    if base_t == "boolean":
+        return [(v, numeric(int(v)), False) for v in (True, 1, False, 0)]
+    raise KeyError(base_t)
+
+
+def run_history(ctx, case):
+    """Acceptance must depend on the kind of the value offered, not on what was accepted before.  For the kinds the statement
+    names (address, network, bytes, boolean) a wrong-kind value c is offered that is equal to, and hashes like, a valid value v
+    (float / Decimal / Fraction of an address integer, 1.0 for 1 / True, a memoryview of bytes): before v was ever offered
+    (fresh random v), after v was accepted, and in the order v, c only.  Whatever the library decides for such a c, it must
+    decide the same in all positions (a cache keyed by the raw argument makes the outcome depend on the history)."""
+    rng = random.Random(case["s"])
+    t = case["t"]
+    is_list = t.endswith("[]")
+    base_t = t[:-2] if is_list else t
+    h = Hist(ctx, case, rng, t, nfields=rng.choice([1, 2]))
+    h.start()
+    ops = ["assign", "ctor_kwargs", "ctor_args", "replace", "from_dict", "group_assign"]
+    outcomes = {}
+
+    def offer(value, exp, kind, label, phase):
+        if is_list:
+            pre = [c.fresh() for c in rng.sample([c for c in h.pool(base_t) if c.exp == "accept"], rng.choice([0, 0, 1]))]
+            value = pre + [value]
+        c = cands.Cand(value, exp, kind)
+        op = rng.choice(ops)
+        ok, _ = h.do(op, h.focus, c)
+        if ok is None:
+            return
+        ctx.cell(t, "history:" + label, phase)
+        if label != "valid":
+            outcomes.setdefault(label, []).append((phase, bool(ok), op, _safe_repr(value)[:60]))
+
+    for v, twins, fresh in equal_twins(base_t, rng):
+        for label, c in twins:
+            try:
+                if not (c == v and hash(c) == hash(v)):
+                    continue
+            except Exception:  # noqa: BLE001
+                continue
+            ctx.event("history_twin_pairs")
+            if fresh and rng.random() < 0.7:
+                offer(c, "open", "equal-wrongkind", label, "before-equal-valid")
+                offer(v, "accept", "valid", "valid", "valid")
+                offer(c, "open", "equal-wrongkind", label, "after-equal-valid")
+            else:
+                offer(v, "accept", "valid", "valid", "valid")
+                offer(c, "open", "equal-wrongkind", label, "after-equal-valid" if fresh else "after-equal-valid-common")
+    for label, seen in outcomes.items():
+        ctx.event("history_consistency_checked")
+        if len({ok for _, ok, _, _ in seen}) > 1:
+            ctx.violation(KEY_HISTORY, "acceptance of a wrong-kind value (%s for %s) depends on what was accepted before" % (label, t),
+                          detail=h.detail("history", [], kind=label, offers=[list(x) for x in seen][:12]))
+    h.end()
+    ctx.sample({"case": case, "descriptor": [h.desc.name, h.fields], "operations": h.log[:8]}, kind="history:" + base_t)
+
+
 def run_alias(ctx, case):
     """Several records of one descriptor leave a digest / T[] field unset; the default object the library puts there must be
     the record's own: filling it in place through ONE record (digest setters, append / extend / insert on the typed list)
@@ -848,7 +992,9 @@ def run_alias(ctx, case):
 
 def execute(ctx, case):
     k = case["k"]
-    if k == "alias":
+    if k == "history":
+        run_history(ctx, case)
+    elif k == "alias":
         run_alias(ctx, case)
     elif k == "suite":
         run_suite(ctx, case)
@@ -877,5 +1023,7 @@ def finish(ctx):
     ctx.require(ev.get("stamp_checked", 0) > 0, "the _version stamp check never ran")
     ctx.require(ev.get("alias_others_checked", 0) > 0, "the shared-default monitor (other records unchanged after an in-place fill) never ran")
     ctx.require(ev.get("alias_identity_checked", 0) > 0, "the default-object identity check never ran")
+    ctx.require(ev.get("history_consistency_checked", 0) > 0, "the history-independence monitor never ran")
+    ctx.require(ev.get("group_view_checked", 0) > 0 and ev.get("group_view_unchanged_checked", 0) > 0, "the grouped-view monitor never ran")
     for q in ("flow.record.base:Record.__setattr__", "flow.record.fieldtypes:typedlist._convert", "flow.record.packer:RecordPacker.pack_obj"):
         ctx.require(ctx.reach.get(q, 0) > 0, "anchor %s was never entered" % q)
